@@ -19,7 +19,7 @@ Obs0 == [phase |-> "idle", hung |-> {}, extra |-> 0, touched |-> 0, shown |-> TR
          stop |-> "none", stopdel |-> FALSE, pause |-> FALSE, silence |-> FALSE, left |-> 0,
          ms |-> [r \in Roles |-> 0], since |-> [r \in Roles |-> -1], npresent |-> 0, keptok |-> TRUE,
          timeout |-> 0, run |-> -1, fkind |-> "none", prehs |-> FALSE,
-         pdata |-> 0, pkeep |-> 0, dataafter |-> 0, pausems |-> 0]
+         pdata |-> 0, pkeep |-> 0, dataafter |-> 0, pausems |-> 0, crashed |-> FALSE, vmgrow |-> 0]
 
 (* one abstract one-block file stands for the whole named tree: DstSame(1) <=> every entry same *)
 OneFile == <<[dir |-> FALSE, size |-> 1, comp |-> FALSE]>>
@@ -73,7 +73,7 @@ TFs ==
     /\ dst' = [f \in 1..1 |-> IF Ev.allsame THEN Src(1) ELSE Cont(0, FALSE)]
     /\ obs' = [obs EXCEPT !.phase = "judged", !.extra = Ev.extra, !.touched = Ev.touched, !.shown = Ev.shown,
                           !.n = Ev.n, !.nsame = Ev.nsame, !.npresent = Ev.npresent, !.keptok = Ev.keptok,
-                          !.pdata = Ev.pdata, !.pkeep = Ev.pkeep, !.dataafter = Ev.dataafter, !.pausems = Ev.pausems]
+                          !.vmgrow = Ev.vmgrow, !.pdata = Ev.pdata, !.pkeep = Ev.pkeep, !.dataafter = Ev.dataafter, !.pausems = Ev.pausems]
     /\ UNCHANGED <<cf, chan, dead, pc, fi, rem, outst, sdig, got, ackq, fin, rsize, rdig, result, fileOK, stopped,
                    faults, told>>
 
@@ -82,7 +82,13 @@ TLeft ==
     /\ obs' = [obs EXCEPT !.left = Ev.n]
     /\ UNCHANGED vars
 
-TNext == TReset \/ TSkip \/ TRet \/ TFs \/ TLeft
+(* the process running the roles died (panic, fatal error, signal) during this run *)
+TCrash ==
+    /\ IsEvent("crash") /\ obs.phase = "running"
+    /\ obs' = [obs EXCEPT !.phase = "judged", !.crashed = TRUE]
+    /\ UNCHANGED vars
+
+TNext == TReset \/ TSkip \/ TRet \/ TFs \/ TLeft \/ TCrash
 TSpec == TInit /\ [][TNext /\ UNCHANGED PauseVars]_tvars
 
 -----------------------------------------------------------------------------
@@ -127,6 +133,12 @@ PauseBoundMs == obs.pausems * 3 + 2 * obs.timeout * 1000 + 1500 + 8000
 ObsPauseNoHang == (Judged /\ Paused) => (obs.hung = {} /\ \A r \in Roles : obs.since[r] <= PauseBoundMs)
 ObsNoDataWhilePaused == (Judged /\ Paused) => obs.pdata <= 1
 ObsKeepAlive == (Judged /\ Paused /\ cf.upload /\ obs.dataafter > 0 /\ obs.pausems >= 500) => obs.pkeep >= 1
+
+(* C12.  Whatever one field of the peer's messages is replaced by: the process survives, its      *)
+(* address space does not grow by more than 1 GiB during a transfer of a few KiB, both roles     *)
+(* return in time.                                                                               *)
+ObsNoCrash == ~obs.crashed
+ObsBoundedMemory == Judged => obs.vmgrow <= 1024
 
 HW == IF l > TLCGet(1) THEN TLCSet(1, l) ELSE TRUE
 ASSUME TLCSet(1, 0)
